@@ -2,8 +2,12 @@ package main
 
 import (
 	"bytes"
+	"fmt"
 	"sort"
 	"sync"
+
+	"github.com/nspcc-dev/neo-go/pkg/core/state"
+	"github.com/nspcc-dev/neo-go/pkg/io"
 
 	"github.com/nspcc-dev/neo-go/pkg/core/storage"
 )
@@ -187,7 +191,7 @@ func diffDB(a, b map[string][]byte, n int) []string {
 		w, ok := b[k]
 		if !ok {
 			res = append(res, "only-left:"+hexs(k))
-		} else if !bytes.Equal(v, w) {
+		} else if !bytes.Equal(canonVal(k, v), canonVal(k, w)) {
 			res = append(res, "differs:"+hexs(k))
 		}
 	}
@@ -201,6 +205,30 @@ func diffDB(a, b map[string][]byte, n int) []string {
 		res = res[:n]
 	}
 	return res
+}
+
+// canonVal removes the one known encoding artefact of the database: state.TokenTransferInfo is
+// serialised by ranging over a Go map (LastUpdated), so the same record has several byte forms.
+func canonVal(k string, v []byte) []byte {
+	if len(k) == 0 || k[0] != byte(storage.STTokenTransferInfo) || v == nil {
+		return v
+	}
+	var ti state.TokenTransferInfo
+	r := io.NewBinReaderFromBuf(v)
+	ti.DecodeBinary(r)
+	if r.Err != nil {
+		return v
+	}
+	ids := make([]int32, 0, len(ti.LastUpdated))
+	for id := range ti.LastUpdated {
+		ids = append(ids, id)
+	}
+	sort.Slice(ids, func(i, j int) bool { return ids[i] < ids[j] })
+	out := []byte(fmt.Sprintf("%d/%d/%d/%d/%v/%v", ti.NextNEP11Batch, ti.NextNEP17Batch, ti.NextNEP11NewestTimestamp, ti.NextNEP17NewestTimestamp, ti.NewNEP11Batch, ti.NewNEP17Batch))
+	for _, id := range ids {
+		out = append(out, []byte(fmt.Sprintf(",%d=%d", id, ti.LastUpdated[id]))...)
+	}
+	return out
 }
 
 func hexs(s string) string {
